@@ -108,6 +108,19 @@ Ev(kind, id, ph, P, st, prec) ==
    prec |-> prec]
 Log(st, e) == [st EXCEPT !.log = Append(@, e)]
 
+\* isAssignmentTarget / isUpdateTarget (parser_functions.go): only core node kinds that JavaScript
+\* never accepts are refused; patterns (arr, obj) and plugin nodes are left alone for `=`
+RECURSIVE AsgTarget(_)
+AsgTarget(n) ==
+  IF n.k = "grp" THEN AsgTarget(n.c[1])
+  ELSE IF n.k = "arr" THEN \A j \in 1..Len(n.c) : AsgTarget(n.c[j])
+  ELSE IF n.k = "obj" THEN \A j \in 1..Len(n.c) : (j % 2 = 0) => AsgTarget(n.c[j])
+  ELSE n.k \notin {"num", "flt", "str", "raw", "bool", "null", "bin", "un", "post", "call", "fn", "asg", "casg", "lete"}
+RECURSIVE UpdTarget(_)
+UpdTarget(n) ==
+  IF n.k = "grp" THEN UpdTarget(n.c[1])
+  ELSE n.k \notin {"arr", "obj"} /\ AsgTarget(n)
+
 ---------------------------------------------------------------------------
 RECURSIVE ParseStatement(_, _), SChain(_, _, _), BaseStatement(_, _), BlockLoop(_, _, _),
           ParseBlock(_, _), ParseExpr(_, _, _), EChain(_, _, _, _), BaseExpr(_, _, _),
@@ -145,6 +158,11 @@ FunctionTail(P, st, kind, name) ==
   IN IF ~e.ok THEN R(Nil, e.st)
      ELSE LET b == ParseBlock(P, Push(e.st, "function"))
           IN R(Node(kind, "", <<name, Node("params", "", ps.ps), b.n>>), Pop(b.st))
+
+\* rejectDeclarationAsBody: current token is the first token of an if/else/while/for body
+NoDecl(P, st, loop) ==
+  IF CurT(P, st).ty = "LET" \/ (loop /\ CurT(P, st).ty = "FUNCTION")
+  THEN AddErr(P, st, "declaration", st.i) ELSE st
 
 \* ParseBlockStatement: current token is "{"
 BlockLoop(P, st, acc) ==
@@ -191,9 +209,9 @@ BaseStatement(P, st) ==
          ELSE LET c  == ParseExpr(P, NextTok(e1.st), LOWEST)
                   e2 == Expect(P, c.st, "RPAREN")
               IN IF ~e2.ok THEN R(Nil, e2.st)
-                 ELSE LET th == ParseStatement(P, NextTok(e2.st))
+                 ELSE LET th == ParseStatement(P, NoDecl(P, NextTok(e2.st), FALSE))
                           el == IF PeekT(P, th.st).ty = "ELSE"
-                                THEN ParseStatement(P, NextTok(NextTok(th.st)))
+                                THEN ParseStatement(P, NoDecl(P, NextTok(NextTok(th.st)), FALSE))
                                 ELSE R(Nil, th.st)
                       IN R(Node("if", "", <<c.n, th.n, el.n>>), el.st)
     [] ty = "WHILE" ->
@@ -202,7 +220,7 @@ BaseStatement(P, st) ==
          ELSE LET c  == ParseExpr(P, NextTok(e1.st), LOWEST)
                   e2 == Expect(P, c.st, "RPAREN")
               IN IF ~e2.ok THEN R(Nil, e2.st)
-                 ELSE LET b == ParseStatement(P, NextTok(e2.st))
+                 ELSE LET b == ParseStatement(P, NoDecl(P, NextTok(e2.st), TRUE))
                       IN R(Node("while", "", <<c.n, b.n>>), b.st)
     [] ty = "FOR" ->
          LET e1 == Expect(P, st, "LPAREN") IN
@@ -222,7 +240,7 @@ BaseStatement(P, st) ==
                                          THEN ParseExpr(P, NextTok(e3.st), LOWEST) ELSE R(Nil, e3.st)
                                   e4  == Expect(P, upd.st, "RPAREN")
                               IN IF ~e4.ok THEN R(Nil, e4.st)
-                                 ELSE LET b == ParseStatement(P, NextTok(e4.st))
+                                 ELSE LET b == ParseStatement(P, NoDecl(P, NextTok(e4.st), TRUE))
                                       IN R(Node("for", "", <<ini.n, cnd.n, upd.n, b.n>>), b.st)
     [] ty = "LBRACE" -> ParseBlock(P, st)
     [] OTHER ->
@@ -291,7 +309,9 @@ ParsePrefix(P, st) ==
     [] ty \in {"TRUE", "FALSE"} -> R(Node("bool", IF ty = "TRUE" THEN "true" ELSE "false", <<>>), st)
     [] ty = "NULL" -> R(Node("null", "", <<>>), st)
     [] ty \in {"NOT", "MINUS", "INCREMENT", "DECREMENT"} ->
-         LET r == ParseExpr(P, NextTok(st), UNARY) IN R(Node("un", tk.lit, <<r.n>>), r.st)
+         LET r == ParseExpr(P, NextTok(st), UNARY)
+             bad == ty \in {"INCREMENT", "DECREMENT"} /\ ~UpdTarget(r.n)
+         IN R(Node("un", tk.lit, <<r.n>>), IF bad THEN AddErr(P, r.st, "invalid", st.i + 1) ELSE r.st)
     [] ty = "LPAREN" ->
          LET e == ParseExpr(P, NextTok(st), LOWEST)
              x == Expect(P, e.st, "RPAREN")
@@ -321,6 +341,9 @@ Remaining(P, st, left, prec) ==
     ELSE LET r == ParseInfix(P, st, left) IN Remaining(P, r.st, r.n, prec)
   ELSE R(left, st)
 
+\* rejectPostfixOperand: the value of x++ / x-- used as callee or object
+NoPostfix(P, st, left) == IF left.k = "post" THEN AddErr(P, st, "unexpected", st.i) ELSE st
+
 \* ParseInfixExpression + the infix function of the peek token
 ParseInfix(P, st, left) ==
   LET st1 == NextTok(st)          \* current token = the operator
@@ -333,19 +356,25 @@ ParseInfix(P, st, left) ==
   ELSE CASE ty \in BinaryTypes ->
          LET r == ParseExpr(P, NextTok(st1), PrecOf(P, ty)) IN R(Node("bin", tk.lit, <<left, r.n>>), r.st)
     [] ty = "ASSIGN" ->
-         LET r == ParseExpr(P, NextTok(st1), LOWEST) IN R(Node("asg", "=", <<left, r.n>>), r.st)
+         LET st2 == IF AsgTarget(left) THEN st1 ELSE AddErr(P, st1, "invalid", st1.i)
+             r == ParseExpr(P, NextTok(st2), LOWEST) IN R(Node("asg", "=", <<left, r.n>>), r.st)
     [] ty \in {"PLUS_ASSIGN", "MINUS_ASSIGN"} ->
-         LET r == ParseExpr(P, NextTok(st1), LOWEST)
+         LET st2 == IF UpdTarget(left) THEN st1 ELSE AddErr(P, st1, "invalid", st1.i)
+             r == ParseExpr(P, NextTok(st2), LOWEST)
          IN R(Node("casg", IF ty = "PLUS_ASSIGN" THEN "+=" ELSE "-=", <<left, r.n>>), r.st)
     [] ty = "LPAREN" ->
-         LET l == ExprList(P, st1, "RPAREN") IN R(Node("call", "", <<left>> \o l.es), l.st)
+         LET l == ExprList(P, NoPostfix(P, st1, left), "RPAREN") IN R(Node("call", "", <<left>> \o l.es), l.st)
     [] ty = "DOT" ->
-         LET r == ParseExpr(P, NextTok(st1), MEMBER) IN R(Node("mem", "", <<left, r.n>>), r.st)
+         LET st2 == NoPostfix(P, st1, left)
+             r == ParseExpr(P, NextTok(st2), MEMBER)
+             bad == r.n.k \in {"grp", "num", "flt", "str", "raw", "arr", "obj", "fn", "un"}
+         IN R(Node("mem", "", <<left, r.n>>), IF bad THEN AddErr(P, r.st, "expected", st1.i + 1) ELSE r.st)
     [] ty = "LBRACKET" ->
-         LET r == ParseExpr(P, NextTok(st1), LOWEST)
+         LET r == ParseExpr(P, NextTok(NoPostfix(P, st1, left)), LOWEST)
              x == Expect(P, r.st, "RBRACKET")
          IN IF x.ok THEN R(Node("idx", "", <<left, r.n>>), x.st) ELSE R(Nil, x.st)
-    [] ty \in {"INCREMENT", "DECREMENT"} -> R(Node("post", tk.lit, <<left>>), st1)
+    [] ty \in {"INCREMENT", "DECREMENT"} ->
+         R(Node("post", tk.lit, <<left>>), IF UpdTarget(left) THEN st1 ELSE AddErr(P, st1, "invalid", st1.i))
     [] OTHER -> Assert(FALSE, <<"binding power without infix function", ty>>)
 
 ---------------------------------------------------------------------------
